@@ -101,11 +101,22 @@ EventsB == { Ev("t1", "inprogress", "none", {}, <<>>, None, "plain"),
              Ev("t2", "success", "fset", {"a"}, <<"c">>, "1", "eof"),
              Ev(None, None, "set", {}, <<"r", "s">>, None, "file"),
              Ev("t1", "unknown", "fset", {}, <<>>, "1", "plain"),
-             Ev("t2", "skip", "none", {}, <<"e">>, None, "plain") }
+             Ev("t2", "skip", "none", {}, <<"e">>, None, "plain"),
+             Ev("t1", "inprogress", "none", {}, <<>>, "9", "plain") }     \* ts "9": AHEAD of the clock ("1": behind)
 
 \* all statuses x all tag forms, for simulation / random trees
 EventsC == { Ev(i, s, t[1], t[2], r, ts, "plain") :
                i \in {"t1", None}, s \in {None, "inprogress", "success", "fail", "uxsuccess", "xfail", "skip", "exists", "unknown"},
                t \in TagsA \cup { <<"set", {"b"}>>, <<"fset", {"x", "b"}>> },
-               r \in { <<>>, <<"c">>, <<"r", "s">> }, ts \in {None, "1"} }
+               r \in { <<>>, <<"c">>, <<"r", "s">> }, ts \in {None, "1", "9"} }
+
+\* Histories on ONE TimestampingStreamResult: supplied timestamps behind ("1") and ahead ("9") of the clock
+\* followed by unstamped events (keyword absent: "plain" with no route; explicit None: with a route).  Filling
+\* in is stateless - OwnField depends on the event alone - so the filled value must be the clock at THAT call.
+TreesT == { Stamp(Sink), Stamp(Copy(<<Sink, Sink>>)), Copy(<<Stamp(Sink), Sink>>), Stamp(Stamp(Sink)),
+            Tag({"a"}, {}, <<Stamp(Sink), Stamp(Q("c"))>>) }
+EventsT == { Ev("t1", "inprogress", "none", {}, <<>>, "9", "plain"),
+             Ev("t1", "inprogress", "none", {}, <<"r">>, "1", "plain"),
+             Ev("t1", "success", "none", {}, <<>>, None, "plain"),
+             Ev("t2", "inprogress", "none", {}, <<"r">>, None, "plain") }
 =============================================================================
